@@ -55,6 +55,86 @@ def chain_propagates(fx, callee_name, upto='asefile::parse::read_aseprite'):
     return problems
 
 
+_EMPTY_OPT_SLICE = ('core::slice::first', 'core::slice::last', 'core::slice::split_first', 'core::slice::split_last')
+_EMPTY_OPT_ITER = ('::max', '::min', '::next', '::last')
+_ITER_OF = ('core::slice::iter', 'std::iter::IntoIterator::into_iter', 'std::iter::Iterator::copied', 'std::iter::Iterator::cloned')
+
+
+def _is_slice_param(t, idx):
+    return is_param(strip_casts(t), idx)
+
+
+def _emptiness_option(t, idx):
+    """an Option that is None exactly when the slice parameter is empty: first()/last() of it, max()/min()/next()/last() of a plain iterator over it"""
+    t = strip_casts(t)
+    if t[0] == 'next':
+        src = q.unwrap_into_iter(t[1])
+        return src is not None and _is_slice_param(src, idx)
+    if t[0] != 'call':
+        return False
+    if t[1] in _EMPTY_OPT_SLICE:
+        return _is_slice_param(t[2][0], idx)
+    if t[1].startswith('std::iter::Iterator') and t[1].endswith(_EMPTY_OPT_ITER) and len(t[2]) == 1:
+        x = strip_casts(t[2][0])
+        while x[0] == 'call' and x[1] in _ITER_OF and len(x[2]) == 1:
+            x = strip_casts(x[2][0])
+        return _is_slice_param(x, idx)
+    return False
+
+
+def _implies_empty(cond, truth, idx):
+    """the branch outcome `cond == truth` is only possible when the slice parameter `idx` has no elements"""
+    if truth is None or cond is None:
+        return False
+    cond = strip_casts(cond)
+    if cond[0] == 'un' and cond[1] == 'Not':
+        return _implies_empty(cond[2], not truth, idx)
+    if cond[0] == 'call':
+        if cond[1] == 'core::slice::is_empty':
+            return truth and _is_slice_param(cond[2][0], idx)
+        if cond[1] == 'std::option::Option::is_none':
+            return truth and _emptiness_option(cond[2][0], idx)
+        if cond[1] == 'std::option::Option::is_some':
+            return (not truth) and _emptiness_option(cond[2][0], idx)
+        return False
+    for op, l, r in q.holds_both(cond, truth):
+        if l[0] == 'call' and l[1] == 'core::slice::len' and _is_slice_param(l[2][0], idx) and q.const_val(r) is not None:
+            c = q.const_val(r)
+            if (op == 'Eq' and c == 0) or (op == 'Le' and c == 0) or (op == 'Lt' and c == 1):
+                return True
+    return False
+
+
+def scan_bypassed(vb, header, idx=2):
+    """a block from which the validator returns without an error and without having entered the scan loop `header`, on a path that is
+    possible for a non-empty slice; None when there is none.  Early returns taken only for an empty slice (`is_empty()`, `len() == 0`,
+    `first().is_none()`, `iter().max() == None`) are the same as the loop running zero times."""
+    errb = q.error_blocks(vb)
+    seen = set()
+    st = [0]
+    while st:
+        x = st.pop()
+        if x in seen or x == header or x in errb:
+            continue
+        seen.add(x)
+        t = vb.blocks[x]['term']
+        if t and t['k'] == 'return':
+            return x
+        if t and t['k'] == 'switch':
+            cond = q.switch_cond(vb, x)
+            for s_ in set(vb.cfg.succ[x]):
+                vals = q.edge_value(vb, x, s_)
+                if cond is not None and cond[0] == 'discr':
+                    if vals == [0] and _emptiness_option(cond[1], idx):
+                        continue
+                elif _implies_empty(cond, q.bool_outcome(vb, x, vals), idx):
+                    continue
+                st.append(s_)
+            continue
+        st.extend(vb.cfg.succ[x])
+    return None
+
+
 def validator_scans_all(fx):
     """validate_indexed_pixels looks every element of the slice up in the palette and returns Err when one is missing"""
     vb = fx.body('asefile::palette::ColorPalette::validate_indexed_pixels')
@@ -74,6 +154,10 @@ def validator_scans_all(fx):
         # a missing colour ends in Err: `.ok_or_else(..)?`, `match .. { None => return Err(..) }`, `if x.is_none() { return Err }`
         req = T.option_required(vb, lambda a0: any(x[0] == 'call' and x[3] == (vb.name, c.bb) for x in alts(a0)))
         prop = bool(req) and L is not None and all(any(vb.cfg.dominates(r_, x) for r_ in req) for x, _ in L['back_edges'])
+        # no Ok return bypasses the scan (a `max() < num_colors => return Ok(())` fast path in front of the loop assumes a dense palette)
+        reached = L is not None and scan_bypassed(vb, L['header']) is None
+        if whole and exits_ok and prop and not reached:
+            return False, 'a non-error return of the validator bypasses the per-pixel palette lookup (dense-palette fast path?)'
         if whole and exits_ok and prop:
             cb = fx.body('asefile::palette::ColorPalette::color')
             t = res(cb).ret() if cb is not None else None
